@@ -24,6 +24,9 @@ OBLIGATIONS = [
     (P + "miss_after_dropped_store", "after a store that could not be performed the key misses (the previous value is gone)"),
     (P + "live_entry_always_found", "no limit, no allocation failure: the concrete answers equal the specification's (a live entry is always found)"),
     (P + "copy_failure_handled", "the generated handler of the value-copy bad_alloc removes the previous entry (D9 fixed in the source)"),
+    (P + "page_triggers_attached", "cache_interface: every trigger recorded since reset (add_trigger, triggers of fetched frames, triggers+key of stored frames) is in the set store_page passes to the back-end, with the page key"),
+    (P + "recorder_collects", "triggers_recorder: detach() returns everything recorded in its scope, whatever other (nested) recorders do"),
+    (P + "rise_invalidates_dependants", "a page stored with t among its recorded triggers (or t = its key) is missed by fetch_page after rise t"),
     (P + "d9_unfixed_counterexample", "with the old handler (plain return) the witness history serves the superseded value: refinement fails, the fixed model misses"),
 ]
 
@@ -32,6 +35,7 @@ TRUSTED = [
     "hand-written structure of Model.lean (four indexes as lists keyed by the entry's key instead of iterators), tied by the correspondence run",
     "hash_map / std::list / std::multimap / std::set / std::basic_string semantics (modelled as association lists / lists; multimap inserts after equal keys)",
     "the shared-memory allocator's outcomes (bad_alloc, not_enough_memory) are inputs (StoreEnv), recorded from the real allocator by the harness for the correspondence run",
+    "cache_interface/triggers_recorder model (Iface.lean) is tied by the translator's statement-order checks and generated constants only (no correspondence run against a real cache_interface)",
     "correspondence harness harness/c07.cpp (ASan+UBSan build of the working tree; time() interposed at link time; process_settings::process_memory reached by re-declaring the struct)",
 ]
 
